@@ -47,7 +47,13 @@ func ParseDec(s string) (Dec, bool) {
 		} else if strings.HasPrefix(es, "+") {
 			es = es[1:]
 		}
-		if es == "" || len(es) > 9 {
+		if es == "" {
+			return Dec{}, false
+		}
+		for len(es) > 1 && es[0] == '0' {
+			es = es[1:]
+		}
+		if len(es) > 9 {
 			return Dec{}, false
 		}
 		for _, c := range es {
